@@ -1,6 +1,7 @@
 package main
 
 import (
+	"go/token"
 	"go/types"
 	"sort"
 	"strings"
@@ -278,4 +279,444 @@ func runOffsetParsedUnsigned(c *Ctx) {
 		})
 	}
 	c.Anchor("C33.R6", "stores of parsed or converted values into an Offset field", n >= 2)
+}
+
+func init() {
+	if round2Docs["C36"] == nil {
+		round2Docs["C36"] = map[string]string{}
+	}
+	round2Docs["C36"]["C36.R5"] = "K4 who-may-write: the pong time (Client.lastSeen) is stamped only where an outstanding ping is answered"
+	round3Hooks["C36"] = append(round3Hooks["C36"], runPongStampWriters)
+}
+
+// runPongStampWriters (C36.R5): checkPong closes the connection with the no-pong code when
+// lastSeen < |lastPing|. lastSeen is therefore "the time of the last answered ping", and it may be stamped
+// only on the branch that answers an outstanding ping (lastPing > 0, the branch that flips the marker).
+// Stamped for any inbound command, a client that never pongs but keeps sending something else passes
+// every pong check.
+func runPongStampWriters(c *Ctx) {
+	w := c.W
+	n := 0
+	for _, st := range w.FieldStores("Client", "lastSeen") {
+		f := st.Parent()
+		if strings.HasSuffix(w.Pos(f.Pos()), "_test.go") {
+			continue
+		}
+		n++
+		positive := Guarded(st, func(g Guard) bool {
+			b, ok := g.Cond.(*ssa.BinOp)
+			if !ok || !loadsField(b.X, "Client", "lastPing") {
+				return false
+			}
+			z, isZ := constIntOf(b.Y)
+			return isZ && z == 0 && ((b.Op.String() == "<=" && !g.Pol) || (b.Op.String() == ">" && g.Pol))
+		})
+		c.Check("C36.R5", st, "the pong time is stamped only on the branch that answers an outstanding ping (lastPing > 0)", positive,
+			"checkPong compares lastSeen with the ping time: stamping it outside the pong branch lets a connection that never answers pings but sends other commands pass every pong check")
+	}
+	c.Anchor("C36.R5", "writers of Client.lastSeen", n >= 1)
+}
+
+// isSizeCmp2: instruction in is a value satisfying pred.
+func isSizeCmp2(in ssa.Instruction, pred func(ssa.Value) bool) bool {
+	v, ok := in.(ssa.Value)
+	return ok && pred(v)
+}
+
+func init() {
+	for _, p := range []string{"C40", "C12", "C38"} {
+		if round2Docs[p] == nil {
+			round2Docs[p] = map[string]string{}
+		}
+	}
+	round2Docs["C40"]["C40.R5"] = "lost wake-up: the decision to park on the condition variable uses only values read in the current critical section"
+	round2Docs["C12"]["C12.R6"] = "lost wake-up: the decision to park on the condition variable uses only values read in the current critical section"
+	round2Docs["C38"]["C38.R5"] = "lost wake-up: the decision to park on the condition variable uses only values read in the current critical section"
+	round3Hooks["C40"] = append(round3Hooks["C40"], func(c *Ctx) { runNoStalePark(c, "C40.R5", "internal/dissolve") })
+	round3Hooks["C12"] = append(round3Hooks["C12"], func(c *Ctx) { runNoStalePark(c, "C12.R6", "internal/queue") })
+	round3Hooks["C38"] = append(round3Hooks["C38"], func(c *Ctx) { runNoStalePark(c, "C38.R5", "") })
+}
+
+// fieldLoadsIn collects the loads of struct fields a condition is computed from.
+func fieldLoadsIn(v ssa.Value, depth int, seen map[ssa.Value]bool, out *[]*ssa.UnOp) {
+	if v == nil || seen[v] || depth > 6 {
+		return
+	}
+	seen[v] = true
+	switch x := v.(type) {
+	case *ssa.UnOp:
+		if _, ok := x.X.(*ssa.FieldAddr); ok && x.Op == token.MUL {
+			*out = append(*out, x)
+			return
+		}
+		fieldLoadsIn(x.X, depth+1, seen, out)
+	case *ssa.BinOp:
+		fieldLoadsIn(x.X, depth+1, seen, out)
+		fieldLoadsIn(x.Y, depth+1, seen, out)
+	case *ssa.Phi:
+		for _, e := range x.Edges {
+			fieldLoadsIn(e, depth+1, seen, out)
+		}
+	case *ssa.Convert:
+		fieldLoadsIn(x.X, depth+1, seen, out)
+	case *ssa.Call:
+		if b, ok := x.Call.Value.(*ssa.Builtin); ok && b.Name() == "len" {
+			fieldLoadsIn(x.Call.Args[0], depth+1, seen, out)
+		}
+	}
+}
+
+// runNoStalePark: a worker parks in sync.Cond.Wait because "nothing to do" was true. The producer changes
+// that fact and signals under the same mutex, so the wake-up cannot be lost only if the worker read the
+// fact inside the critical section in which it parks. A value read before the lock was (re)taken can be
+// stale: the producer's signal fires while nobody is parked, and the worker then parks with work queued.
+// Rule: every struct-field value the guards of a Cond.Wait call are computed from was loaded with no lock
+// or unlock event between the load and the Wait; and at least one such guard exists.
+func runNoStalePark(c *Ctx, rule, pkgSuffix string) {
+	w := c.W
+	n := 0
+	for _, f := range moduleFuncs(w) {
+		if f.Pkg == nil {
+			continue
+		}
+		if pkgSuffix != "" && !strings.HasSuffix(f.Pkg.Pkg.Path(), pkgSuffix) {
+			continue
+		}
+		if pkgSuffix == "" && f.Pkg.Pkg.Path() != modPath {
+			continue
+		}
+		EachInstr(f, func(in ssa.Instruction) {
+			call, ok := in.(*ssa.Call)
+			if !ok {
+				return
+			}
+			cal := call.Call.StaticCallee()
+			if cal == nil || cal.Pkg == nil || cal.Pkg.Pkg.Path() != "sync" || cal.Name() != "Wait" || cal.Signature.Recv() == nil || typeShort(cal.Signature.Recv().Type()) != "Cond" {
+				return
+			}
+			n++
+			var loads []*ssa.UnOp
+			for _, g := range Guards(in) {
+				fieldLoadsIn(g.Cond, 0, map[ssa.Value]bool{}, &loads)
+			}
+			// a field is decided freshly when some load of it has no lock event on the way to the Wait; a stale
+			// peek followed by a fresh re-check of the same field (double-checked fast path) is fine
+			var stale *ssa.UnOp
+			var via ssa.Instruction
+			fresh := map[string]bool{}
+			staleOf := map[string]*ssa.UnOp{}
+			viaOf := map[string]ssa.Instruction{}
+			for _, ld := range loads {
+				key := D(ld)
+				var ev ssa.Instruction
+				EachInstr(f, func(u ssa.Instruction) {
+					if ev != nil {
+						return
+					}
+					if _, isDefer := u.(*ssa.Defer); isDefer {
+						return
+					}
+					ci := asCall(u)
+					if ci == nil || u == in {
+						return
+					}
+					if k, _ := lockEvent(ci); k != "" && Reaches(ld, u) && Reaches(u, in) && !Reaches(in, ld) {
+						ev = u
+					}
+				})
+				if ev == nil {
+					fresh[key] = true
+				} else {
+					staleOf[key], viaOf[key] = ld, ev
+				}
+			}
+			var keys []string
+			for k := range staleOf {
+				keys = append(keys, k)
+			}
+			sort.Strings(keys)
+			for _, k := range keys {
+				if !fresh[k] {
+					stale, via = staleOf[k], viaOf[k]
+					break
+				}
+			}
+			detail := "the producer's signal can fire between the read and the park: the worker then sleeps with work queued (a job accepted but never run, a message never written)"
+			if stale != nil {
+				detail += " — " + D(stale) + " read at " + w.InstrPos(stale) + ", lock event at " + w.InstrPos(via)
+			}
+			c.Check(rule, in, "the decision to park uses only values read in the critical section of the Wait", len(loads) > 0 && stale == nil, detail)
+		})
+	}
+	c.Anchor(rule, "sync.Cond.Wait call sites", n >= 1)
+}
+
+func init() {
+	round2Docs["C38"]["C38.R6"] = "value flow: the queue entry found to be the insufficient-state marker is the entry that is broadcast"
+	round3Hooks["C38"] = append(round3Hooks["C38"], runMarkerIsBroadcast)
+}
+
+// fieldRoot strips field selections and loads: the value a field chain starts from.
+func fieldRoot(v ssa.Value) ssa.Value {
+	for i := 0; i < 8; i++ {
+		switch x := v.(type) {
+		case *ssa.Field:
+			v = x.X
+		case *ssa.FieldAddr:
+			v = x.X
+		case *ssa.UnOp:
+			if x.Op != token.MUL {
+				return v
+			}
+			v = x.X
+		default:
+			return v
+		}
+	}
+	return v
+}
+
+// runMarkerIsBroadcast (C38.R6): the coalescing loop of the queue writer drops all but the newest queued
+// publication, but stops at the insufficient-state marker, which must never be dropped: on the branch
+// where an entry was found to be the marker, the next broadcast sends *that* entry. (A loop that keeps
+// the previous entry in hand when it breaks on the marker broadcasts an ordinary publication and the
+// marker is gone — positioned subscribers are never told their position is lost.)
+func runMarkerIsBroadcast(c *Ctx) {
+	w := c.W
+	n := 0
+	bcast := w.calleeIs("channelMedium.broadcast")
+	for _, f := range moduleFuncs(w) {
+		if f.Pkg == nil || f.Pkg.Pkg.Path() != modPath || len(CallsIn(f, false, bcast)) == 0 {
+			continue
+		}
+		for _, b := range f.Blocks {
+			if len(b.Instrs) == 0 {
+				continue
+			}
+			ifi, ok := b.Instrs[len(b.Instrs)-1].(*ssa.If)
+			if !ok {
+				continue
+			}
+			// condition (possibly the last operand of an || chain lowered to blocks) is a load of
+			// isInsufficientState
+			var fa ssa.Value
+			switch x := ifi.Cond.(type) {
+			case *ssa.UnOp:
+				fa = x.X
+			case *ssa.Field:
+				fa = x
+			}
+			isMarker := false
+			switch x := fa.(type) {
+			case *ssa.FieldAddr:
+				_, fld, ok := FieldOf(x)
+				isMarker = ok && fld == "isInsufficientState"
+			case *ssa.Field:
+				_, fld, ok := FieldOf(x)
+				isMarker = ok && fld == "isInsufficientState"
+			}
+			if !isMarker {
+				continue
+			}
+			root := fieldRoot(ifi.Cond)
+			// follow the true edge through straight-line blocks to the next broadcast
+			prev, cur := b, b.Succs[0]
+			var call ssa.CallInstruction
+			for hops := 0; hops < 4 && call == nil; hops++ {
+				for _, in := range cur.Instrs {
+					if ci := asCall(in); ci != nil && bcast(ci) {
+						call = ci
+						break
+					}
+				}
+				if call != nil || len(cur.Succs) != 1 {
+					break
+				}
+				prev, cur = cur, cur.Succs[0]
+			}
+			if call == nil {
+				continue
+			}
+			n++
+			args := call.Common().Args
+			sent := fieldRoot(args[len(args)-1])
+			// resolve a phi at the head of the broadcast block (or of a straight-line block before it) for
+			// the edge we came in on
+			for i := 0; i < 3; i++ {
+				phi, ok := sent.(*ssa.Phi)
+				if !ok {
+					break
+				}
+				blk := phi.Block()
+				idx := -1
+				// which predecessor of the phi's block lies on our path?
+				p, q := b, b.Succs[0]
+				for hops := 0; hops < 5 && idx < 0; hops++ {
+					if q == blk {
+						for k, pr := range blk.Preds {
+							if pr == p {
+								idx = k
+							}
+						}
+						break
+					}
+					if len(q.Succs) != 1 {
+						break
+					}
+					p, q = q, q.Succs[0]
+				}
+				if idx < 0 {
+					break
+				}
+				sent = fieldRoot(phi.Edges[idx])
+			}
+			_ = prev
+			if sent != root {
+				// a copy "sent = marker entry" on the way to the broadcast makes them the same entry
+				sa, ok1 := sent.(*ssa.Alloc)
+				ra, ok2 := root.(*ssa.Alloc)
+				if ok1 && ok2 {
+					// (a) the copy was made just before the test: scanning back from the test, the last store
+					// into the sent variable copies the tested one
+				back:
+					for i := len(b.Instrs) - 2; i >= 0; i-- {
+						if st, ok := b.Instrs[i].(*ssa.Store); ok {
+							if st.Addr == ssa.Value(sa) {
+								if ld, ok := st.Val.(*ssa.UnOp); ok && ld.Op == token.MUL && ld.X == ssa.Value(ra) {
+									sent = root
+								}
+								break back
+							}
+							if st.Addr == ssa.Value(ra) {
+								break back
+							}
+						}
+					}
+					// (b) or it is made on the way to the broadcast
+					q := b.Succs[0]
+				walk:
+					for hops := 0; hops < 5; hops++ {
+						for _, in := range q.Instrs {
+							if in == ssa.Instruction(call) {
+								break walk
+							}
+							if st, ok := in.(*ssa.Store); ok && st.Addr == ssa.Value(sa) {
+								if ld, ok := st.Val.(*ssa.UnOp); ok && ld.Op == token.MUL && ld.X == ssa.Value(ra) {
+									sent = root
+								}
+							}
+						}
+						if len(q.Succs) != 1 {
+							break
+						}
+						q = q.Succs[0]
+					}
+				}
+			}
+			c.Check("C38.R6", ifi, "the entry found to be the insufficient-state marker is the one broadcast on that branch", sent == root,
+				"the branch taken for the marker broadcasts another entry ("+D(sent)+" instead of "+D(root)+"): the marker is dropped and positioned subscribers are never told their position is lost")
+		}
+	}
+	c.Anchor("C38.R6", "marker tests followed by a broadcast", n >= 2)
+}
+
+func init() {
+	if round2Docs["C39"] == nil {
+		round2Docs["C39"] = map[string]string{}
+	}
+	round2Docs["C39"]["C39.R5"] = "K2: no publication is filtered out of the recovered list before the merge without leaving a placeholder"
+	round3Hooks["C39"] = append(round3Hooks["C39"], runNoFilterBeforeMerge)
+}
+
+// condFromCall: cond is computed (through !, phis of && / ||, comparisons with constants) from the result
+// of a call satisfying pred.
+func condFromCall(v ssa.Value, pred func(*ssa.Call) bool, depth int, seen map[ssa.Value]bool) bool {
+	if v == nil || seen[v] || depth > 6 {
+		return false
+	}
+	seen[v] = true
+	switch x := v.(type) {
+	case *ssa.Call:
+		return pred(x)
+	case *ssa.Extract:
+		return condFromCall(x.Tuple, pred, depth+1, seen)
+	case *ssa.UnOp:
+		return condFromCall(x.X, pred, depth+1, seen)
+	case *ssa.BinOp:
+		return condFromCall(x.X, pred, depth+1, seen) || condFromCall(x.Y, pred, depth+1, seen)
+	case *ssa.Phi:
+		for _, e := range x.Edges {
+			if condFromCall(e, pred, depth+1, seen) {
+				return true
+			}
+		}
+	}
+	return false
+}
+
+// runNoFilterBeforeMerge (C39.R5): MergePublications detects a gap over the merged offsets and tolerates a
+// missing offset only where a filtered placeholder (Time == -1) covers it. A caller that drops the
+// publications its tags filter excludes *before* the merge, without a placeholder, manufactures holes: as
+// soon as buffered publications are present the merge reports a gap that does not exist and the client is
+// disconnected with insufficient state. So, in a function that calls MergePublications, no append that
+// builds the recovered argument is conditional on a tags-filter verdict (filtering happens after the
+// merge, or inside the recovery helper that writes placeholders).
+func runNoFilterBeforeMerge(c *Ctx) {
+	w := c.W
+	match := w.calleeIs("filter.Match")
+	isFilterCall := func(call *ssa.Call) bool {
+		if match(call) {
+			return true
+		}
+		cal := w.Callee(call)
+		return cal != nil && w.inModule(cal) && w.MayReach(cal, match, 3)
+	}
+	n := 0
+	for _, f := range moduleFuncs(w) {
+		for _, ci := range CallsIn(f, false, w.calleeIs("recovery.MergePublications")) {
+			n++
+			arg := ci.Common().Args[0]
+			// appends feeding arg
+			var feeds []*ssa.Call
+			seen := map[ssa.Value]bool{}
+			var walk func(v ssa.Value, d int)
+			walk = func(v ssa.Value, d int) {
+				if v == nil || seen[v] || d > 10 {
+					return
+				}
+				seen[v] = true
+				switch x := v.(type) {
+				case *ssa.Phi:
+					for _, e := range x.Edges {
+						walk(e, d+1)
+					}
+				case *ssa.Call:
+					if b, ok := x.Call.Value.(*ssa.Builtin); ok && b.Name() == "append" {
+						feeds = append(feeds, x)
+						walk(x.Call.Args[0], d+1)
+					}
+				case *ssa.Slice:
+					walk(x.X, d+1)
+				case *ssa.UnOp:
+					if al, ok := x.X.(*ssa.Alloc); ok {
+						for _, r := range *al.Referrers() {
+							if st, ok := r.(*ssa.Store); ok && st.Addr == ssa.Value(al) {
+								walk(st.Val, d+1)
+							}
+						}
+					}
+				}
+			}
+			walk(arg, 0)
+			bad := ""
+			for _, ap := range feeds {
+				if GuardedBy(ap, func(g Guard) bool { return condFromCall(g.Cond, isFilterCall, 0, map[ssa.Value]bool{}) }) {
+					bad = w.InstrPos(ap)
+				}
+			}
+			c.Check("C39.R5", ci, "the recovered list handed to the merge is built without consulting the tags filters", bad == "",
+				"a publication dropped before the merge leaves a hole no placeholder covers: with buffered publications present the merge reports a gap that does not exist (append at "+bad+")")
+		}
+	}
+	c.Anchor("C39.R5", "MergePublications call sites", n >= 2)
 }
